@@ -14,7 +14,7 @@ func init() {
 		{"RX", []string{"RX-*"}},
 		{"AL", []string{"AL-*"}},
 		{"BN", []string{"PARSE-*"}},
-	}, map[string]int{"SM-ref": 19, "SM-first": 1, "SM-prefix": 1, "RX-model": 8},
+	}, map[string]int{"SM-ref": 19, "SM-first": 1, "SM-prefix": 1, "RX-model": 7, "RX-status": 1},
 		"Static decision of the structural clauses of parse fidelity: (RX) language inclusion printer-model ⊆ parser pattern for every line shape of runtime/traceback.go, decided on the product automaton of regexp/syntax programs read from the type-checked source; (SM) the complete transition relation of scan extracted from SSA for every state and abstract configuration and compared, line kind by line kind, with the reference automaton, including which captured group feeds which goroutine field; SM-prefix/first/append: one indentation per dump, First only on the first goroutine, goroutines and calls only appended in order; (AL) no parsed value aliases the reusable read buffer; (PARSE) shape rules of parseArgs/Func.Init/Call.init. Not decided: value-level equality of the parsed strings and numbers.",
 		"the printer model refs/printer_formats.json reflects runtime/traceback.go of go1.17..1.26", "regexp implements RE2 semantics as compiled by regexp/syntax")
 	p("C02", []RuleSel{
